@@ -36,7 +36,7 @@ CLAIMS = {
             "(C05_sys_order_and_nextitem), and what a worker has started is what it has completed plus the test in progress (C01_sys_started_is_completed_plus_running)",
             "invariant by induction over arbitrary step lists (Lean 4) ; differential correspondence on the real WorkerInteractor threads with pre-emption at lock releases"),
     "C07": ("Lean theorems: the atomic steal removes all requested tests or none (duplicate-free queue), replies exactly what it removed (unconditionally), "
-            "the rest still runs in order (lifted to every worker of the whole system, any scheduler, by C05_sys_workers_refine); whole system: every steal request a worker has taken is answered - #unscheduled replies sent = #requests taken, and taken ++ waiting is a subsequence of the requests addressed to it (C07_sys_steals_taken_are_answered); controller side: a steal act needs no outstanding request, asks for a book suffix leaving two, and the reply is "
+            "the rest still runs in order (lifted to every worker of the whole system, any scheduler, by C05_sys_workers_refine); whole system: every steal request a worker has taken is answered - #unscheduled replies sent = #requests taken, and taken ++ waiting is a subsequence of the requests addressed to it (C07_sys_steals_taken_are_answered), and an outstanding request always names a worker the scheduler still knows (C07_sys_outstanding_request_names_known_worker); controller side: a steal act needs no outstanding request, asks for a book suffix leaving two, and the reply is "
             "processed as the contract's unsched act, which the ledger theorem accepts",
             "worker-model theorems + contract refinement (Lean 4) ; differential correspondence of worker threads and of the worksteal scheduler"),
     "C16": ("Lean theorems (load, worksteal): every scheduler call keeps the complete wire log free of anything behind a node's shutdown (hence one shutdown per node), "
